@@ -17,7 +17,7 @@ vars == <<l, prev>>
 
 Known == {"Reset", "Enc", "Dec", "DecTag", "Packet", "CheckTag", "DecBig", "Perm", "Garbage", "Hash", "HInit", "HReinit",
           "HUpdate", "HFinal", "HFree", "Hmac", "HmInit", "HmReinit", "HmUpdate", "HmFinal", "HmFree", "Hkdf", "HkExtract",
-          "HkExpand", "HkFree", "Pbkdf2", "PInit", "PGen", "PFeed", "PReseed", "PLimit", "PFree", "Clean", "Trng", "DeadState"}
+          "HkExpand", "HkFree", "Pbkdf2", "PInit", "PGen", "PFeed", "PReseed", "PLimit", "PFree", "Clean", "Trng", "DeadState", "HMove"}
 
 None == [e |-> "none"]
 
@@ -29,6 +29,7 @@ Step ==
        /\ Judge(FootprintOK(e), l, e, "output footprint differs from the documented size")
        /\ Judge(EraseOK(e), l, e, "erasure: bytes left non-zero / wrong range zeroed")
        /\ Judge(TaintOK(e), l, e, "a branch or address depends on a secret (memcheck report inside the call)")
+       /\ Judge(Field(e, "evals", 1) = 1, l, e, "the object argument of the call was evaluated more than once")
        /\ IF Field(e, "pair", 0) = 1 THEN prev' = e
           ELSE IF Field(e, "pair", 0) = 2
                THEN /\ Judge(prev.e = e.e /\ Outputs(prev) = Outputs(e), l, e,
